@@ -882,7 +882,10 @@ class World(object):
             raise Unsupported('for over a contracted generator with a general body at %s' % ex.where())
         # un-contracted generator of the package: its body is run in place, each `yield v` runs the loop body with target = v
         module, fnode = g.state['fn']
+        saved_fn = ex.fn_node
+        ex.fn_node = ex.top_fn_node
         ordinal = ex.loop_ordinal(st)
+        ex.fn_node = saved_fn
         for n in ast.walk(fnode):
             if isinstance(n, (ast.While, ast.For)):
                 n._pyvc_ordinal = ordinal
